@@ -102,9 +102,9 @@ func runC08(p *Prog, r *Report) {
 				// other length would go on the wire in front of the body
 				hl := "len(arg1.Header)"
 				dom := map[string][]int64{hl: {0, 1, 3, 4, 5, 8, 12}}
-				res := ComparePred(st[0].In.Block(), dom, nil, func(env map[string]int64) bool { return env[hl] > 0 })
+				res := ComparePred(predBlock(st[0]), dom, nil, func(env map[string]int64) bool { return env[hl] > 0 })
 				if !res.OK && res.Undec == "" {
-					res = ComparePred(st[0].In.Block(), dom, nil, func(env map[string]int64) bool { return true })
+					res = ComparePred(predBlock(st[0]), dom, nil, func(env map[string]int64) bool { return true })
 				}
 				switch {
 				case res.Undec != "":
